@@ -6,6 +6,8 @@ use std::sync::OnceLock;
 struct Pool {
     rsa2048: Vec<Vec<u8>>,
     rsa4096: Vec<Vec<u8>>,
+    /// keys whose modulus size is NOT one the formats allow: (bits, PKCS#1 DER)
+    odd: Vec<(usize, Vec<u8>)>,
 }
 
 fn pool() -> &'static Pool {
@@ -17,7 +19,11 @@ fn pool() -> &'static Pool {
                 .map(|a| a.iter().map(|x| hex::decode(x.as_str().unwrap()).unwrap()).collect())
                 .unwrap_or_default()
         };
-        Pool { rsa2048: get("rsa2048"), rsa4096: get("rsa4096") }
+        let odd = v["odd"]
+            .as_array()
+            .map(|a| a.iter().map(|x| (x["bits"].as_u64().unwrap() as usize, hex::decode(x["der"].as_str().unwrap()).unwrap())).collect())
+            .unwrap_or_default();
+        Pool { rsa2048: get("rsa2048"), rsa4096: get("rsa4096"), odd }
     })
 }
 
@@ -28,6 +34,10 @@ pub fn rsa2048(i: usize) -> Vec<u8> {
 pub fn rsa4096(i: usize) -> Vec<u8> {
     let p = pool();
     p.rsa4096[i % p.rsa4096.len()].clone()
+}
+/// RSA keys of wrong modulus sizes (2047, 2049, 2040, 2056, 1024, 3072, 4095, 4088 bits)
+pub fn odd_sizes() -> Vec<(usize, Vec<u8>)> {
+    pool().odd.clone()
 }
 pub fn n2048() -> usize {
     pool().rsa2048.len()
@@ -50,5 +60,26 @@ pub fn generate(n2048: usize, n4096: usize) -> String {
         let k = rsa::RsaPrivateKey::new(&mut rng, 4096).unwrap();
         b.push(hex::encode(k.to_pkcs1_der().unwrap().as_bytes()));
     }
-    serde_json::to_string_pretty(&serde_json::json!({"rsa2048": a, "rsa4096": b})).unwrap()
+    let mut odd = Vec::new();
+    for bits in [2047usize, 2047, 2049, 2040, 2056, 1024, 3072, 4095, 4088] {
+        let k = rsa::RsaPrivateKey::new(&mut rng, bits).unwrap();
+        odd.push(serde_json::json!({"bits": bits, "der": hex::encode(k.to_pkcs1_der().unwrap().as_bytes())}));
+    }
+    serde_json::to_string_pretty(&serde_json::json!({"rsa2048": a, "rsa4096": b, "odd": odd})).unwrap()
+}
+
+/// Add the odd-size keys to an existing pool file (keeps the 2048/4096 keys).
+pub fn add_odd(existing: &str) -> String {
+    use rsa::pkcs1::EncodeRsaPrivateKey;
+    use rsa::traits::PublicKeyParts;
+    let mut v: serde_json::Value = serde_json::from_str(existing).unwrap();
+    let mut rng = rsa::rand_core::OsRng;
+    let mut odd = Vec::new();
+    for bits in [2047usize, 2047, 2049, 2040, 2056, 1024, 3072, 4095, 4088] {
+        let k = rsa::RsaPrivateKey::new(&mut rng, bits).unwrap();
+        assert_eq!(k.n().bits(), bits);
+        odd.push(serde_json::json!({"bits": bits, "der": hex::encode(k.to_pkcs1_der().unwrap().as_bytes())}));
+    }
+    v["odd"] = serde_json::Value::Array(odd);
+    serde_json::to_string_pretty(&v).unwrap()
 }
